@@ -1,11 +1,14 @@
 //! Recorder: drives the real exmex library and records what it did.  It contains no oracle: the only
 //! comparison it makes is "identical, as a JSON value, to what TLC printed"; everything else is
 //! forwarded to the TLC judges.
+mod calc;
 mod counted;
 mod dynops;
 mod expr;
 mod fuzz;
+mod fuzz_calc;
 mod lex;
+mod sym;
 mod term;
 mod tracker;
 mod util;
@@ -28,6 +31,8 @@ fn main() {
         "consume" => counted::main(rest),
         "vars" => vars::main(rest),
         "valgrid" => valgrid::main(rest),
+        "calc" => calc::main(rest),
+        "fuzz-calc" => fuzz_calc::main(rest),
         "fuzz-val" => valgrid::main_fuzz(rest),
         "tables" => fuzz::main_tables(rest),
         _ => {
